@@ -2,6 +2,7 @@ package absint
 
 import (
 	"fmt"
+	"go/types"
 	"sort"
 	"strings"
 
@@ -30,6 +31,9 @@ type State struct {
 	Trace  []string
 	Dead   bool
 	gcMark int
+	// Dyn records, per unknown interface value, the dynamic type assumed on this path
+	// (nil = an implementation outside the repository).
+	Dyn map[int]types.Type
 }
 
 func NewState() *State {
@@ -50,6 +54,12 @@ func (s *State) Clone() *State {
 	n.Defers = append([]*deferred(nil), s.Defers...)
 	n.Trace = append([]string(nil), s.Trace...)
 	n.gcMark = s.gcMark
+	if s.Dyn != nil {
+		n.Dyn = make(map[int]types.Type, len(s.Dyn))
+		for k, v := range s.Dyn {
+			n.Dyn[k] = v
+		}
+	}
 	return n
 }
 
